@@ -160,3 +160,74 @@ def _invented(sname, iname, late):
         return False
     mi = [i for i in pm.instances if i.name == iname]
     return len(mi) == 1 and {c.portname: c.target.sig for c in mi[0].connections} == {"a": sname, "b": "s"}
+
+
+DOMS = ["", "lib_a", "lib_b"]
+
+
+def _namesakes(same, d0, d1, w0, w1, deep):
+    """two external modules, possibly with one name in different domains, instantiated side by side / at two levels"""
+    env._reset_all()
+    A = h.ExternalModule(name="res", domain=DOMS[d0], port_list=[h.Port(name="p", width=w0), h.Port(name="n")], paramtype=dict)
+    B = h.ExternalModule(name="res" if same else "cap", domain=DOMS[d1], port_list=[h.Port(name="p", width=w1), h.Port(name="n")], paramtype=dict)
+    m = h.Module(name="Top")
+    m.x, m.y, m.g = h.Signal(width=w0), h.Signal(width=w1), h.Signal()
+    m.ra = A({})(p=m.x, n=m.g)
+    if deep:
+        c = h.Module(name="Child")
+        c.y, c.g = h.Port(width=w1), h.Port()
+        c.rb = B({})(p=c.y, n=c.g)
+        m.c = c(y=m.y, g=m.g)
+        m.ra2 = A({})(p=m.x, n=m.g)
+    else:
+        m.rb = B({})(p=m.y, n=m.g)
+    return m
+
+
+@harness("C06", args="same: bool, d0: int, d1: int, w0: int, w1: int, deep: bool", pre=["0 <= d0 <= 2", "0 <= d1 <= 2", "1 <= w0 <= 2", "1 <= w1 <= 2"],
+         tiers={"quick": {"timeout": 150}}, sample=(True, 1, 2, 1, 2, False),
+         bounds="two external modules with equal or different names, in equal or different domains (3), port widths 1..2, instantiated in one module or at two levels; post: whenever to_proto returns, the package is closed (every instance refers to a declared external module, ports connected once, widths fit) and from_proto accepts it and re-exports it identically",
+         generalises="selectors (solver-enumerated)", outside="acceptance by the netlisters for namesakes in different domains: see namesakes_netlist (known finding)")
+def namesakes_closed(same, d0, d1, w0, w1, deep):
+    P = env.pick
+    same, deep, d0, d1, w0, w1 = bool(same), bool(deep), P(d0, 0, 2), P(d1, 0, 2), P(w0, 1, 2), P(w1, 1, 2)
+    with env.notrace():
+        from vlib.designcheck import roundtrip
+        try:
+            pkg = h.to_proto(_namesakes(same, d0, d1, w0, w1, deep))
+        except Exception:
+            env.COUNTS["reached"] += 1
+            return not (not same or d0 != d1) or _no("to_proto refused two distinct external modules")
+        env.COUNTS["reached"] += 1
+        probs = check_package(pkg)
+        if probs:
+            return _no("not closed: " + "; ".join(probs[:3]))
+        try:
+            h.from_proto(pkg)
+        except Exception as ex:
+            return _no("from_proto: " + repr(ex)[:200])
+        ok, why = roundtrip(pkg)
+        return ok or _no(why)
+
+
+def _no(msg):
+    WHY["why"] = msg
+    return False
+
+
+@harness("C06", args="same: bool, d0: int, d1: int, deep: bool", pre=["0 <= d0 <= 2", "0 <= d1 <= 2"],
+         tiers={"quick": {"timeout": 120}}, sample=(False, 0, 1, False),
+         bounds="the namesake designs with equal port lists: the spice and spectre netlisters accept every package to_proto returns (one name in two different domains: known finding)",
+         generalises="selectors (solver-enumerated)", outside="")
+def namesakes_netlist(same, d0, d1, deep):
+    same, d0, d1, deep = bool(same), env.pick(d0, 0, 2), env.pick(d1, 0, 2), bool(deep)
+    with env.notrace():
+        try:
+            pkg = h.to_proto(_namesakes(same, d0, d1, 2, 2, deep))
+        except Exception:
+            env.COUNTS["reached"] += 1
+            return True
+        env.COUNTS["reached"] += 1
+        why = _validate(pkg)
+        WHY["why"] = why
+        return not why
